@@ -3,7 +3,9 @@
 import json, os, sys
 V = os.path.dirname(os.path.dirname(os.path.abspath(__file__)))
 sys.path.insert(0, os.path.join(V, "bin"))
-from propcfg import PROPS, NOT_APPLICABLE, HOOK_COMMITS
+from propcfg import PROPS as _ALL, NOT_APPLICABLE, HOOK_COMMITS, DISABLED
+PROPS = {k: v for k, v in _ALL.items() if k not in DISABLED}
+NOT_APPLICABLE = dict(NOT_APPLICABLE, **DISABLED)
 ids = [json.loads(l)["id"] for l in open(os.path.join(V, "properties.jsonl"))]
 checks = []
 for pid in ids:
